@@ -168,6 +168,9 @@ func c15(p *Prog, r *Report) {
 	// R5: keys, blinds and contexts are inputs only - the same key object gives
 	// the same blinded signature every time (a key wiped or rewritten by one
 	// blinded signing makes the next one a signature under another key)
+	const R6 = "C15.fixed-base-tables-are-the-reference's"
+	r.Rule(R6, "basepointTable and basepointNafTable agree with GOROOT crypto/internal/edwards25519 (built once and completely before use; a sync.OnceValue spelling with the reference's body is accepted) - shared with C14", 2)
+	c14TablesAgree(p, r, R6)
 	const R5 = "C15.key-material-is-read-only"
 	r.Rule(R5, "the six blinding entry points never write memory of or reachable from their key, blind, message or context arguments (mod/ref summaries; appends behind len are C16's)", 6)
 	eff := p.Effects()
